@@ -332,7 +332,7 @@ func (w *gcWorld) addJunk(dir string) {
 	sort.Strings(partialDirs)
 	for i := 0; i < w.prof.Junk && len(dirs) > 0; i++ {
 		d := dirs[r.Intn(len(dirs))]
-		switch r.Intn(6) {
+		switch r.Intn(7) {
 		case 0: // temp file of a crashed durable write
 			os.WriteFile(filepath.Join(d, fmt.Sprintf(".%03d%09d", r.Intn(256), r.Intn(1e9))), []byte("partial write"), 0o600)
 			w.sim.Probe("junk.tempfile")
@@ -359,6 +359,17 @@ func (w *gcWorld) addJunk(dir string) {
 					os.Remove(full)
 					os.Mkdir(full, 0o755)
 					w.sim.Probe("junk.dir-full")
+					w.broken = true
+				}
+			}
+		case 6: // ... or gone altogether
+			if len(partialDirs) > 0 {
+				pd := partialDirs[r.Intn(len(partialDirs))]
+				full := strings.TrimSuffix(pd, ".p")
+				if fi, err := os.Stat(full); err == nil && !fi.IsDir() {
+					exec.Command("chattr", "-i", full).Run()
+					os.Remove(full)
+					w.sim.Probe("junk.missing-full")
 					w.broken = true
 				}
 			}
